@@ -145,7 +145,8 @@ def stepCore (st : Option S) (line : String) : Option S × String :=
     match (field? fs "hot").bind parseCands, (field? fs "cold").bind parseCands, natField? fs "k",
           field? fs "ef" with
     | some hot, some cold, some k, some ef =>
-      if ef == "-" then (st, "unpredicted") else   -- cacheable path: see the qcache engine / C07
+      -- a search answered by the query cache touches nothing else (cache contents: qcache engine / C07)
+      if ef == "-" && (field? fs "cachehit") == some "1" then (st, "unpredicted") else
       if k == 0 || k > 10000 then (st, "rejected") else
       let (s', res) := Knn.knnStep dg s hot cold k
       let hotNonEmpty := !(Knn.filterHot dg s hot).2.isEmpty
